@@ -4,7 +4,7 @@ from hypothesis import strategies as st
 
 from .common import GRID
 
-vals = st.one_of(st.none(), st.integers(0, 9), st.sampled_from(["a", "b", "", False, 0.0, 0, "@exc"]))
+vals = st.one_of(st.none(), st.integers(0, 9), st.sampled_from(["a", "b", "", False, 0.0, 0, "@exc", "@intr"]))
 delays = st.sampled_from(GRID)
 small = st.integers(0, 7)
 excs = st.tuples(st.sampled_from(["ValueError", "KeyError", "RuntimeError", "HErr", "HErr2", "HBase", "IndexError", "AttributeError",
